@@ -556,6 +556,11 @@ type tracked struct {
 	*store
 	m      *kvmodel.Model
 	tokens map[string][]uint64 // every token ever returned for key, oldest first
+	// reuseBuf, when non-nil: the client keeps ONE value buffer per key and overwrites it in place
+	// right before the next Put of that key, handing the store the same slice again (pooled
+	// request messages do that). Only checks that never read a live value between the overwrite
+	// and the Put may switch it on.
+	reuseBuf map[string][]byte
 }
 
 func track(s *store) *tracked {
@@ -616,11 +621,21 @@ func (s *tracked) apply(rec *ev.Recorder, propID string, o op) (mm *mismatch, sk
 	switch o.Kind {
 	case "Put":
 		v := o.Val.bytes()
+		if s.reuseBuf != nil && len(v) > 0 {
+			if old, ok := s.reuseBuf[o.Key]; ok {
+				for i := range old {
+					old[i] = v[i%len(v)]
+				}
+				v = old
+			} else {
+				s.reuseBuf[o.Key] = v
+			}
+		}
 		err := s.kv.Put(bg, k, v)
 		if err != nil {
 			return bad("put-error", "returned %s, want nil", errName(err)), false
 		}
-		s.m.Put(k, v)
+		s.m.Put(k, append([]byte(nil), v...))
 	case "Get":
 		got, err := s.kv.Get(bg, k)
 		want := s.m.Get(k)
